@@ -296,9 +296,54 @@ func transferTargets(c Case, res *CaseResult, each func(jr journalRun, label str
 	}
 }
 
+// transferCoincidences: amounts chosen so that balances coincide - the recipient ends with exactly what the sender had,
+// an account hands over its whole balance, two parties end equal, amounts equal to a balance - with small numbers
+// (where such coincidences are likely) and with numbers beyond 64 bits.
+func transferCoincidences(c Case, res *CaseResult, each func(jr journalRun, label string)) {
+	fork := h.Fork(c.P[0])
+	for _, scale := range []*big.Int{big.NewInt(1), new(big.Int).Lsh(big.NewInt(1), 70)} {
+		mul := func(v int64) *big.Int { return new(big.Int).Mul(big.NewInt(v), scale) }
+		x, y := common.BytesToAddress([]byte{0xc1, 1}), common.BytesToAddress([]byte{0xc1, 2})
+		a := h.NewAsm()
+		send := func(to common.Address, v int64) {
+			val, _ := uint256.FromBig(mul(v))
+			a.PushU(0).PushU(0).PushU(0).PushU(0).Push(val).PushAddr(to).PushU(30000).Op(h.CALL, h.POP)
+		}
+		// contract holds 10, x holds 4, y does not exist
+		send(x, 6)                 // 4+6 == 10 (what the sender had)
+		send(y, 4)                 // whole balance to a new account
+		send(x, 0)                 // nothing left
+		send(h.ContractAddr(1), 0) // callee pays back 5 below
+		send(x, 5)                 // 10+5 vs 5: equal to what the sender has
+		send(y, 0)
+		a.Op(h.STOP)
+		callee := h.NewAsm()
+		{
+			val, _ := uint256.FromBig(mul(5))
+			callee.PushU(0).PushU(0).PushU(0).PushU(0).Push(val).Op(h.CALLER).PushU(30000).Op(h.CALL, h.POP, h.STOP)
+		}
+		w := h.BaseWorld([][]byte{a.Bytes(), callee.Bytes()})
+		w.Get(h.ContractAddr(0)).Balance = mul(10)
+		w.Get(h.ContractAddr(1)).Balance = mul(5)
+		w.Set(h.Acct{Addr: x, Balance: mul(4)})
+		sc := &scenario{Fork: fork, NContract: 2, World: w, Tx: h.TxSpec{Entry: h.ECall, From: h.Sender, To: h.ContractAddr(0), Input: []byte{1}, Gas: 3_000_000, Value: new(big.Int)}}
+		fs := h.NewForkSession(sc.World, h.EnvSpec{Fork: sc.Fork}, h.ForkOpts{Debug: true, RecSteps: true})
+		sj := attachShadowJournal(fs)
+		ir := fs.Invoke(sc.Tx)
+		jr := journalRun{fs: fs, sj: sj, ir: ir, desc: fmt.Sprintf("balance coincidences fork=%s unit=%v", fork, scale)}
+		if ir.Panic == "" {
+			jr.sh = buildShadow(fs.L, fs.Rules.IsEIP150)
+		}
+		each(jr, "coincidences")
+		res.Count("coincidence_runs", 1)
+		res.Evals++
+	}
+}
+
 func journalWorkload(c Case, res *CaseResult, each func(jr journalRun, label string)) {
 	if c.Kind == "targets" {
 		transferTargets(c, res, each)
+		transferCoincidences(c, res, each)
 		return
 	}
 	sc, r := journalScenario(c.Seed, c10Kinds, h.Frontier, h.Cancun)
